@@ -42,7 +42,7 @@ def plan(tier):
 
 
 def n_tables(tier):
-    return 200 if tier == 'thorough' else 28
+    return 150 if tier == 'thorough' else 28
 
 
 def _target(rng):
@@ -138,6 +138,7 @@ def check_case(case, ctx):
         ctx.count('cmp_total')
         ctx.count({'roll': 'cmp_rolling_' + (op['win'][0] if op.get('win') else ''), 'cum': 'cmp_cumulative',
                    'exp': 'cmp_expanding', 'ewm': 'cmp_ewm'}[fam])
+        ctx.count('cmp_op_' + (op['agg'] if fam in ('roll', 'cum') else fam + '.' + op['agg']) + ('' if fam != 'roll' else '_rolling'))
         ctx.count('cmp_unsplit' if len(case['sizes']) == 1 else 'cmp_split')
         if 'nan' in cls:
             ctx.count('cmp_with_nan')
